@@ -1,21 +1,36 @@
 """C04 — Names in expressions resolve to the object Python scoping binds them to.
 
-(C) model resolve / canonical / attribute chaining   vs  Object.resolve, ExprName.canonical_path, ExprAttribute.canonical_path on
-    the scope objects of generated packages loaded with griffe.load (every ExprName of every stored expression)
-    model relative_to_absolute                        vs  griffe's relative_to_absolute on hand-built Module chains (exhaustive small)
-    model visit_import / visit_importfrom             vs  alias members + `imports` the visitor recorded for every generated import
-(O) model py_lookup                                   vs  CPython: the generated package is imported in a subprocess and every referenced
-    name is evaluated by code placed in the referencing scope itself (class body, module body, __init__ body, comprehension, lambda)
-    model cpython_from_target                         vs  importlib.util.resolve_name
-    model cpython_import / cpython_importfrom         vs  the object CPython really bound in the executed scope
-direct: the path Griffe returns, evaluated as a dotted path by CPython (import the longest module prefix, getattr the rest), is the
-    very object CPython bound the name to at that site; names CPython does not bind statically come back unchanged; nothing raises.
-    Failing sites are attributed to a known finding only by the extracted model's verdict (gap_class / gap_local).
+(T) harness/translate/c04_variant.py reads from the source under test which form Object.resolve and the expression builders have (as they
+    stand / with the prepared repairs of C04-F1, F3, F4); the three switches go to the model with every query (the theorems cover all
+    combinations).  Fail closed; while the source cannot be read nothing is excused.
+(C) model resolve_v / canonical_v / attribute chaining  vs  Object.resolve, ExprName.canonical_path, ExprAttribute.canonical_path on the scope
+    objects of generated packages loaded with griffe.load
+    model g_names (builders + walk, every identifier of a stored expression: lambda parameters and defaults, comprehension targets, first
+    iterable, nested function scopes, string annotations)  vs  the canonical_path of every ExprName of the stored expression, positionally
+    model g_members (fold of visit_import / visit_importfrom / set_member over the binding statements READ FROM THE SOURCE TEXT)  vs  the
+    member tables of the live tree: the frame chain is abstracted twice (live tree, source text) and both abstractions must coincide, as
+    must the two abstractions of every expression (Griffe's Expr tree, ast)
+    model relative_to_absolute  vs  griffe's relative_to_absolute on hand-built Module chains (exhaustive small)
+    model visit_import / visit_importfrom  vs  alias members + `imports` the visitor recorded for every generated import
+(O) model py_lookup  vs  CPython executing the package: a probe next to each site evaluates the name in the real scope (bind-once stream)
+    model p_names / p_class  vs  the load instruction the CPython compiler emits for each identifier (LOAD_NAME / LOAD_GLOBAL / LOAD_FAST,
+    LOAD_DEREF / LOAD_FROM_DICT_OR_DEREF, read from the compiled twin source by position) + the final namespaces of the executed scopes:
+    the flow-insensitive reading, used for every site of every stream, the only one in the re-binding stream
+    model p_members  vs  CPython's final namespace of every module / class, name by name (last binding wins)
+    model py_lookup_decl (global / nonlocal)  vs  instruction + executed namespaces on single modules with declarations
+    model cpython_from_target  vs  importlib.util.resolve_name; model cpython_import / cpython_importfrom  vs  the object really bound
+direct: the path Griffe returns for each identifier, evaluated as a dotted path by CPython (import the longest module prefix, getattr the
+    rest), is the very object CPython binds the identifier to (probe / instruction + namespaces); identifiers CPython does not bind to an
+    object with a path come back unchanged; Griffe's member of each name is the object in CPython's final namespace; nothing raises.
+    A failing site is attributed to a known finding only if the extracted model of the form under test reproduces Griffe's answers on it
+    (C), the model's Python side matches CPython on it (O), the model's gap predicate fires, and the finding's repair is absent from the
+    tree (F1/F3/F4) -- the remaining ones (F5 global, F6 __init__ body) by the model of the fully repaired form.
 """
 from __future__ import annotations
 
 import ast
 import dataclasses
+import dis
 import importlib.util
 import json
 import os
@@ -23,35 +38,73 @@ import subprocess
 import sys
 from pathlib import Path
 
+from harness.common import framework
+
 ID = "C04"
-LEVEL_TEXT = ("Theorems for all chains of scopes and all names: Object.resolve/Function.resolve always end with a path justified by a member, "
-              "import, __init__ parameter or enclosing definition on the parent chain, or with the caught NameResolutionError (only when nothing "
-              "binds the name: unknown names/builtins come back unchanged); on every chain the visitor can build the result equals CPython's "
-              "scoping (class body, closed-over function scopes, module globals) unless the walk stops in an enclosing class body (F1) or the "
-              "identifier is bound by the expression itself (F3) - each refuted by a computed witness that is replayed on the "
-              "code; relative_to_absolute equals importlib's _resolve_name for every level up to the package depth in __init__ and plain modules; "
-              "import/from-import statements bind the same name to the same path as CPython; dotted chains canonicalise segment by segment from the "
-              "resolved root. Model tied to the code by differential runs on generated packages (model vs Griffe vs CPython executing the package).")
-LEVEL_NOTE = ("Trusted: Coq kernel, extraction, the harness abstraction (live Griffe scope object -> chain of frames: kind, name, member names with "
-              "alias targets, parameter names), CPython as authority. Static scoping is flow-insensitive: the generator binds each name at most once "
-              "per scope and before its uses (a separate unchecked-by-oracle 'wild' stream drops this). Not modelled: which members the visitor "
-              "creates (C01), `global`/`nonlocal` declarations, locals assigned inside __init__, star imports (C05), inherited members in attribute "
-              "chains (C07), alias resolution of the returned first-link path (C06; the direct check lets CPython evaluate the path instead). "
-              "All 15 theorems are closed under the global context.")
-MODEL = ("Model.C04_scope", "run_C04")
-COQ_TARGETS = ["Proofs/C04_scope.vo"]
+LEVEL_TEXT = ("Theorems for all chains of scopes, all names and all expressions, over a model that describes Object.resolve and the expression builders "
+              "both as the code stands and with the three prepared repairs (form read from the source on every run). Repaired form: on every chain of "
+              "classes and modules the visitor can build, resolve = CPython's lookup (innermost class body, module globals) and every identifier of "
+              "every stored expression - lambda parameters/defaults, comprehension targets, first iterable, function scopes nested in class bodies, "
+              "string annotations - canonicalises to what CPython's symbol table binds, WITHOUT gap hypothesis (C04_resolve_fixed_eq_python, "
+              "C04_expr_fixed_eq_python); each repair is shown necessary. Every form: the same equalities modulo decidable gap predicates "
+              "(class body CPython skips; expression-local binder), refuted by computed witnesses replayed on the code. `global` declarations: the "
+              "walk gives the module binding unless a lower scope answers. Binding statements: for every statement list (no bind-once restriction, "
+              "last binding wins) the visitor's member table and CPython's final namespace give each name the same path, except imports of the "
+              "scope's own member. Resolution is total and justified; unknown names unchanged; relative_to_absolute = importlib._resolve_name; "
+              "import statements bind as CPython; dotted chains canonicalise segment by segment. Model tied to the code by a source-reading "
+              "translator, two independent abstractions (live tree, source text) that must coincide, and differential runs against Griffe and "
+              "against CPython (execution probes, compiler instructions, final namespaces).")
+LEVEL_NOTE = ("Trusted: Coq kernel, extraction, the two abstractions (live objects -> frames: kind, name, members with alias targets, parameters; "
+              "ast -> binding statements and expression trees), CPython 3.12 as authority (its compiler for which scope binds an identifier; one "
+              "compiler defect of 3.12.0/3.12.1 - targets of nested inlined comprehensions leaking as fast locals - is recognised and those "
+              "expressions are not compared). The gap-free theorems cover chains of classes and modules; chains through __init__ keep the gap "
+              "C04-F6 (declined repair). Not modelled: which non-statement members exist (annotation-only and instance attributes count as class "
+              "members for Griffe, by design: test_name_resolution), walrus targets, `nonlocal` beyond the spec side, star imports (C05), "
+              "inherited members in attribute chains (C07), alias resolution of the returned first-link path (C06; the direct check lets CPython "
+              "evaluate the path). While /repo lacks the three fix commits the check runs the as-is form of the model and lists F1/F3/F4 as "
+              "known; on the fix clone it runs the repaired form and their witnesses must give CPython's answers. All 29 theorems are closed "
+              "under the global context.")
+MODEL = ("Model.C04_expr", "run_C04e")
+COQ_TARGETS = ["Proofs/C04_scope.vo", "Proofs/C04_expr.vo"]
+TRANSLATOR_NAME = "harness/translate/c04_variant.py (which form of Object.resolve / the expression builders the tree has)"
+_VARIANT = {"v": [True, True, True], "read": False}
+
+
+def translate(ctx):
+    """(T) read from the source under test which of the three repairs it contains; the switches go to the model with every query."""
+    from harness.translate import c04_variant
+    # until the source has been read successfully nothing is excused: all three repairs are assumed present, so that every
+    # disagreement of the kinds C04-F1 / F3 / F4 is reported with its failing input
+    _VARIANT["v"], _VARIANT["read"] = [True, True, True], False
+    v = c04_variant.read_variant()
+    _VARIANT["v"], _VARIANT["read"] = [v["v_skip"], v["v_locals"], v["v_inner"]], True
+
+
+def V():
+    return list(_VARIANT["v"])
+
+
 RULE = ("exhaustive relative-import space (module depth 1..4 x __init__/plain x level 0..depth+2 x from-module none/x/x.y); seeded random packages of "
-        "2..4 modules (root __init__, plain modules, sub-packages), each module with imports of every form (import a.b / import a.b as c / from a.b "
+        "1..4 modules (root __init__, plain modules, sub-packages), each module with imports of every form (import a.b / import a.b as c / from a.b "
         "import c [as d] / relative with every valid level / from . import sub [as sub] / stdlib), constants, functions, classes nested up to 3 with "
         "shadowing between class members, imports, module globals and builtins, __init__ methods with parameters, and reference sites in annotations "
-        "(quoted, unquoted, postponed), values, bases, decorators, defaults, parameter/return annotations, __init__ bodies, comprehensions and "
-        "lambdas, as single names or dotted chains up to 4 segments; plus a 'wild' stream (rebinding, forward references, conditional blocks, "
-        "functions nested in classes) and random object trees built through the producer API (detached children, rebound names, functions of any name: the shapes the visitor never builds), both checked for model correspondence, justification of every returned path and absence of exceptions only. A site is non-trivial when its root name is "
-        "bound by some scope on the chain; distinct by (package source, site)")
-TRUSTED = ["abstraction: the harness reads kind/name/members(alias target_path)/parameters along Object.parent into the model's chain of frames",
+        "(quoted, unquoted, postponed), values, bases, decorators, defaults, parameter/return annotations, __init__ bodies, as single names or dotted "
+        "chains up to 4 segments, plus random expressions up to depth 3 built from tuples, calls, subscripts, conditionals, dict displays, lambdas "
+        "(0-2 parameters, defaults, *r/**r) and list/set/dict/generator comprehensions (1-2 for-clauses, tuple targets, conditions) whose binder "
+        "names are drawn from the names the scopes bind; a bind-once stream (in-place probes + instructions) and a re-binding stream (names "
+        "re-bound, bindings after the references, forward references; instructions + final namespaces only); single modules with global/nonlocal "
+        "declarations in class bodies, __init__ and classes inside __init__; a 'wild' stream (conditional blocks, functions nested in classes, star "
+        "imports) and random object trees built through the producer API (the shapes the visitor never builds), both checked for model "
+        "correspondence, justification of every returned path and absence of exceptions. A site is non-trivial when one of its identifiers is bound "
+        "by some scope on the chain; distinct by (package source, site)")
+TRUSTED = ["abstraction 1: the harness reads kind/name/members(alias target_path)/parameters along Object.parent into the model's chain of frames, and "
+           "Griffe's Expr tree into the model's expr",
+           "abstraction 2: the harness reads the binding statements and expressions of every scope from the source text (ast); both abstractions "
+           "are compared on every scope and expression of the generated packages",
            "the instrumentation convention: a name evaluated by a statement placed next to the stored expression, in the same scope, is what "
-           "CPython binds for that expression (bases, decorators, defaults and annotations are evaluated in the enclosing scope)"]
-ASSUMPTIONS = ["each name is bound at most once per scope and before the sites that can see it (static analysis is flow-insensitive)",
+           "CPython binds for that expression (bases, decorators, defaults and annotations are evaluated in the enclosing scope); a string "
+           "annotation is evaluated in the scope it is written in (PEP 563), i.e. as its unquoted twin compiles"]
+ASSUMPTIONS = ["static scoping is read flow-insensitively: the object a name designates in a scope is the one bound there when the scope's body has run",
                "function scopes in the parent chain are __init__ methods of classes (the only functions the visitor descends into)",
                "level <= package depth for relative imports (beyond it CPython raises ImportError; Griffe clamps at the top package)"]
 
@@ -136,6 +189,14 @@ for pk in job["packages"]:
             except Exception as e:
                 b.append(["error", type(e).__name__])
         res["bindings"] = b
+        nss = {}
+        for module, qual in pk.get("scopes", []):
+            try:
+                ns = scope_ns(module, qual)
+                nss[module + ":" + qual] = {k: desc(v) for k, v in list(ns.items()) if not k.startswith("__")}
+            except Exception as e:
+                nss[module + ":" + qual] = {"!error": ["error", type(e).__name__]}
+        res["namespaces"] = nss
     sys.path.pop(0)
     for k in [k for k in sys.modules if k == pk["root"] or k.startswith(pk["root"] + ".")]:
         del sys.modules[k]
@@ -149,6 +210,7 @@ class Sc:
     def __init__(self, kind, name, path, parent, mod):
         self.kind, self.name, self.path, self.parent, self.mod = kind, name, path, parent, mod
         self.bind = {}        # name -> canonical target path (or None when unknown)
+        self.nbind = {}       # name -> number of binding statements (re-binding stream)
         self.lines = []       # binding statements, in order
         self.children = []
         self.init = None      # list of parameter names when the class has an __init__
@@ -171,8 +233,11 @@ class Mod:
 
 
 class Gen:
-    def __init__(self, rng, root, wild=False):
-        self.rng, self.root, self.wild = rng, root, wild
+    def __init__(self, rng, root, wild=False, rebind=False):
+        # rebind: no "each name bound once, before its uses" restriction: names are re-bound (definition after import, import after
+        # definition, ...), binding statements also follow the reference sites, forward references are allowed; such packages are checked
+        # under the flow-insensitive reading only (compiler's load instruction + final namespaces), without in-place probes.
+        self.rng, self.root, self.wild, self.rebind = rng, root, wild, rebind
         self.reg = {}      # canonical path -> {"kind", "members": {name: target path}}
         for p, (k, ms) in EXTERNAL.items():
             self.reg[p] = {"kind": k, "members": {m: p + "." + m for m in ms}}
@@ -205,6 +270,7 @@ class Gen:
         self.reg[path] = {"kind": kind, "members": {}}
         self.reg[sc.path]["members"][name] = path
         sc.bind[name] = path
+        sc.nbind[name] = sc.nbind.get(name, 0) + 1
         return path
 
     # --- structure
@@ -284,6 +350,7 @@ class Gen:
         self.reg[c.path] = {"kind": "class", "members": {}}
         self.reg[parent.path]["members"][name] = c.path
         parent.bind[name] = c.path
+        parent.nbind[name] = parent.nbind.get(name, 0) + 1
         parent.children.append(c)
         self.gen_bindings(c, rng.randint(0, 4))
         if rng.random() < 0.12 and name not in c.bind:      # a class that has a member with its own name
@@ -302,7 +369,7 @@ class Gen:
         for _ in range(n):
             r = rng.random()
             if r < 0.45 or (sc.kind == "class" and r < 0.8):
-                free = [v for v in VALUE if v not in sc.bind or (self.wild and rng.random() < 0.3)]
+                free = [v for v in VALUE if v not in sc.bind or ((self.wild or self.rebind) and rng.random() < 0.3)]
                 if not free:
                     continue
                 name = rng.choice(free)
@@ -338,7 +405,10 @@ class Gen:
             tmod = rng.choice(done)
             ec = tmod.comps
             obj = None
-            exports = [n for n in (tmod.scope.bind if tmod.scope else {}) if not n.startswith("_")]
+            # re-binding stream: only names bound once in their module are imported from it (which object an importer sees of a
+            # re-bound name depends on when a circular import runs: flow, not scoping)
+            exports = [n for n in (tmod.scope.bind if tmod.scope else {}) if not n.startswith("_")
+                       and (not self.rebind or tmod.scope.nbind.get(n, 0) == 1)]
             if exports and rng.random() < 0.6:
                 obj = rng.choice(exports)
         pm = m.comps if m.is_init else m.comps[:-1]
@@ -368,7 +438,7 @@ class Gen:
             _, comps, use_as = form
             asname = rng.choice(free) if (use_as and free) else None
             bound = asname or comps[0]
-            if bound in sc.bind and not self.wild:
+            if bound in sc.bind and not (self.wild or self.rebind):
                 return
             text = "import " + ".".join(comps) + (f" as {asname}" if asname else "")
             ctarget = ".".join(comps) if asname else comps[0]
@@ -382,7 +452,7 @@ class Gen:
             elif r < 0.45:
                 asname = name
             bound = asname or name
-            if bound in sc.bind and not self.wild:
+            if bound in sc.bind and not (self.wild or self.rebind):
                 if not free:
                     return
                 asname = bound = rng.choice(free)
@@ -394,6 +464,7 @@ class Gen:
         rec.update({"module_dotted": m.dotted, "is_init": m.is_init, "scope": sc.path, "qual": sc.qual, "bound": bound, "text": text})
         self.imports.append(rec)
         sc.lines.append(text)
+        sc.nbind[bound] = sc.nbind.get(bound, 0) + 1
         sc.bind[bound] = ctarget
         self.reg[sc.path]["members"][bound] = ctarget
 
@@ -420,7 +491,7 @@ class Gen:
         forbidden = set()
         if not self.wild:
             forbidden |= {n for n in self.submodule_names(m) if n not in mod_sc.bind}
-            if eager:
+            if eager and not self.rebind:
                 top = [c for c in mod_sc.children]
                 ti = sc.top_index if sc.kind == "class" else None
                 if ti is not None:     # top-level classes not yet bound while this class body runs (own top-level ancestor and later ones)
@@ -457,7 +528,7 @@ class Gen:
     def new_site(self, sc, kind, root, segs, **kw):
         self.nsite += 1
         s = {"id": self.nsite, "kind": kind, "root": root, "segs": segs, "scope": sc.path, "qual": sc.qual,
-             "module": sc.mod.dotted, "expr": ".".join([root] + segs)}
+             "module": sc.mod.dotted, "expr": ".".join([root] + segs), "scope_kind": sc.kind}
         s.update(kw)
         self.sites.append(s)
         return s
@@ -465,21 +536,108 @@ class Gen:
     def gen_sites(self, sc):
         rng = self.rng
         n = rng.randint(1, 4) if sc.kind == "class" else rng.randint(1, 5)
-        kinds = ["ann", "ann", "val", "val", "base", "deco", "default", "pann", "comp", "lam"]
+        kinds = ["ann", "ann", "val", "val", "base", "deco", "default", "pann", "comp", "lam", "xval", "xval", "xdef"]
         for _ in range(n):
             kind = rng.choice(kinds)
+            if kind in ("xval", "xdef"):
+                sc.sites.append(self.new_site(sc, kind, "", [], quoted=False, expr=self.gen_xexpr(sc)))
+                continue
             root, segs = self.pick_expr(sc, eager=True)
             if kind in ("comp", "lam"):
                 segs = []
             quoted = kind in ("ann", "pann") and not sc.mod.future and rng.random() < 0.5
             sc.sites.append(self.new_site(sc, kind, root, segs, quoted=quoted))
         if sc.init is not None:
+            params = [p for p in sc.init if p != "self"]
             for _ in range(rng.randint(1, 3)):
-                root, segs = self.pick_expr(sc, eager=False, params=[p for p in sc.init if p != "self"])
+                if rng.random() < 0.3:
+                    sc.init_sites.append(self.new_site(sc, "xinit", "", [], quoted=False, expr=self.gen_xexpr(sc, params)))
+                    continue
+                root, segs = self.pick_expr(sc, eager=False, params=params)
                 sc.init_sites.append(self.new_site(sc, "init", root, segs, quoted=False))
+
+    # --- expressions with scopes of their own: lambdas, comprehensions (several for-clauses, nested), mixed with ordinary nodes
+    def gen_xexpr(self, sc, params=(), depth=0, locs=()):
+        rng = self.rng
+        text = self._xexpr(sc, tuple(params), depth, tuple(locs))
+        try:
+            ast.parse(text, mode="eval")
+        except SyntaxError:
+            return rng.choice(VALUE)
+        return text
+
+    def _xname(self, sc, params, locs):
+        rng = self.rng
+        pool = self.visible_names(sc, eager=False) + list(params) * 2 + list(locs) * 5 + VALUE + NEVER
+        return rng.choice(pool)
+
+    def _xexpr(self, sc, params, depth, locs):
+        rng = self.rng
+        sub = lambda l=locs: self._xexpr(sc, params, depth + 1, tuple(l))
+        def atom():
+            r = rng.random()
+            if r < 0.8:
+                return self._xname(sc, params, locs)
+            if r < 0.93:
+                return self._xname(sc, params, locs) + "." + rng.choice(VALUE)
+            return "0"
+        if depth >= 3 or (depth > 0 and rng.random() < 0.3):
+            return atom()
+        r = rng.random()
+        if r < 0.10:
+            return f"({sub()}, {sub()})"
+        if r < 0.17:
+            return f"{self._xname(sc, params, locs)}({sub()}, k={sub()})"
+        if r < 0.22:
+            return f"{self._xname(sc, params, locs)}[{sub()}]"
+        if r < 0.27:
+            return f"({sub()} if {sub()} else {sub()})"
+        if r < 0.31:
+            return f"{{{sub()}: {sub()}}}"
+        binders = VALUE[:5] + ["p"]
+        if r < 0.60:
+            ps = rng.sample(binders, rng.randint(0, 2))
+            plain, dflt = [], []
+            for q in ps:
+                if rng.random() < 0.4:
+                    dflt.append(f"{q}={sub()}")          # evaluated outside the lambda
+                else:
+                    plain.append(q)
+            parts = plain + dflt
+            extra = []
+            r2 = rng.random()
+            if r2 < 0.12:
+                extra = ["r"]
+                parts.append("*r")
+            elif r2 < 0.2:
+                extra = ["r"]
+                parts.append("**r")
+            body = self._xexpr(sc, params, depth + 1, tuple(locs) + tuple(ps) + tuple(extra))
+            return f"(lambda {', '.join(parts)}: {body})" if parts else f"(lambda: {body})"
+        # comprehension
+        ngen = rng.choice([1, 1, 1, 2])
+        tgs = []
+        for _ in range(ngen):
+            tgs.append(rng.sample(binders, rng.choice([1, 1, 2])))
+        inner = tuple(locs) + tuple(t for tg in tgs for t in tg)
+        clauses = []
+        for i, tg in enumerate(tgs):
+            t = tg[0] if len(tg) == 1 else "(" + ", ".join(tg) + ")"
+            it = sub(locs) if i == 0 else sub(inner)       # only the first iterable is evaluated outside
+            cl = f"for {t} in {it}"
+            if rng.random() < 0.35:
+                cl += f" if {sub(inner)}"
+            clauses.append(cl)
+        kind = rng.choice(["list", "list", "set", "gen", "dict"])
+        if kind == "dict":
+            return "{" + f"{sub(inner)}: {sub(inner)} " + " ".join(clauses) + "}"
+        o, c = {"list": "[]", "set": "{}", "gen": "()"}[kind]
+        return o + sub(inner) + " " + " ".join(clauses) + c
 
     # --- emission
     def emit_probe(self, s, ind, in_init=False):
+        if self.rebind or self.twin:
+            return []
         i, root, e = s["id"], s["root"], s["expr"]
         loc = f", {root!r} in locals()" if in_init else ""
         L = [f"try: _REC({i}, 'root', {root}{loc})", f"except NameError: _REC({i}, 'root')"]
@@ -490,9 +648,15 @@ class Gen:
 
     def emit_site(self, s, ind, future):
         i, e, k, root = s["id"], s["expr"], s["kind"], s["root"]
-        q = (lambda t: '"' + t + '"') if s["quoted"] else (lambda t: t)
+        quoted = s["quoted"] and not self.twin
+        future = future and not self.twin
+        q = (lambda t: '"' + t + '"') if quoted else (lambda t: t)
+        if k == "xval":
+            return [ind + l for l in ["try:", f"    x{i} = {e}", "except Exception: pass"]]
+        if k == "xdef":
+            return [ind + l for l in ["try:", f"    def h{i}(self=None, q={e}): pass", "except Exception: pass"]]
         if k == "ann":
-            if s["quoted"] or future:
+            if quoted or future:
                 L = [f"u{i}: {q(e)} = 0"]
             else:
                 L = ["try:", f"    u{i}: {e} = 0", "except Exception: pass"]
@@ -505,21 +669,24 @@ class Gen:
         elif k == "default":
             L = ["try:", f"    def f{i}(self=None, q={e}): pass", "except Exception: pass"]
         elif k == "pann":
-            if s["quoted"] or future:
+            if quoted or future:
                 L = [f"def g{i}(self=None, q: {q(e)} = None) -> {q(e)}: pass"]
             else:
                 L = ["try:", f"    def g{i}(self=None, q: {e} = None) -> {e}: pass", "except Exception: pass"]
         elif k == "comp":
             L = [f"w{i} = [{root} for {root} in (_S,)]", f"[_REC({i}, 'root', {root}) for {root} in (_S,)]"]
-            return [ind + l for l in L]
+            return [ind + l for l in (L[:1] if self.rebind or self.twin else L)]
         elif k == "lam":
             L = [f"w{i} = lambda {root}: {root}", f"(lambda {root}: _REC({i}, 'root', {root}))(_S)"]
-            return [ind + l for l in L]
+            return [ind + l for l in (L[:1] if self.rebind or self.twin else L)]
         return [ind + l for l in L] + self.emit_probe(s, ind)
 
     def emit_scope(self, sc, ind):
         L = []
-        for st in sc.lines:
+        if self.rebind and not hasattr(sc, "cut"):
+            sc.cut = self.rng.randint(0, len(sc.lines)) if self.rng.random() < 0.6 else len(sc.lines)
+        cut = getattr(sc, "cut", len(sc.lines))
+        for st in sc.lines[:cut]:
             L += [ind + l for l in st.split("\n")]
         if self.wild and self.rng.random() < 0.4:
             L += [ind + l for l in self.wild_lines(sc)]
@@ -530,12 +697,16 @@ class Gen:
         if sc.init is not None:
             L.append(f"{ind}def __init__({', '.join([sc.init[0]] + [p + '=None' for p in sc.init[1:]])}):")
             for s in sc.init_sites:
-                L += [f"{ind}    try: self.a{s['id']} = {s['expr']}", f"{ind}    except Exception: pass"]
-                L += self.emit_probe(s, ind + "    ", in_init=True)
+                carrier = "b" if s["kind"] == "xinit" else "a"
+                L += [f"{ind}    try: self.{carrier}{s['id']} = {s['expr']}", f"{ind}    except Exception: pass"]
+                if s["kind"] == "init":
+                    L += self.emit_probe(s, ind + "    ", in_init=True)
             if not sc.init_sites:
                 L.append(ind + "    pass")
         for s in sc.sites:
             L += self.emit_site(s, ind, sc.mod.future)
+        for st in sc.lines[cut:]:          # rebind stream: binding statements that follow the references
+            L += [ind + l for l in st.split("\n")]
         return L
 
     def wild_lines(self, sc):
@@ -555,11 +726,19 @@ class Gen:
             [f"from . import *", f"from {self.root} import *"],
         ])
 
-    def files(self):
+    twin = False
+
+    def files(self, twin=False):
+        """twin: the same package with annotations written unquoted and evaluated eagerly (no __future__ import, no probes): the text the
+        compiler's choice of load instruction is read from (PEP 563: a string annotation is evaluated in the scope it is written in)."""
         out = {}
-        for m in self.all_mods:
-            L = (["from __future__ import annotations"] if m.future else []) + self.emit_scope(m.scope, "")
-            out[m.relfile] = "\n".join(L) + "\n"
+        self.twin = twin
+        try:
+            for m in self.all_mods:
+                L = (["from __future__ import annotations"] if m.future and not twin else []) + self.emit_scope(m.scope, "")
+                out[m.relfile] = "\n".join(L) + "\n"
+        finally:
+            self.twin = False
         return out
 
 
@@ -624,6 +803,8 @@ def abstract_chain(obj):
 
 def impl_resolve(scope, name):
     import griffe
+    if scope is None:          # a name the builders marked as local to the expression: never looked up
+        return []
     try:
         return [scope.resolve(name)]
     except griffe.NameResolutionError:
@@ -679,12 +860,14 @@ def load_package(root, directory):
 def site_expr(pkg_coll, s):
     """The stored expression of a generated site."""
     i, k = s["id"], s["kind"]
-    carrier = {"ann": "u", "val": "v", "base": "c", "deco": "d", "default": "f", "pann": "g", "comp": "w", "lam": "w", "init": "a"}[k]
+    carrier = CARRIER[k]
     obj = pkg_coll[s["scope"] + "." + carrier + str(i)]
     if k == "ann":
         return [obj.annotation]
-    if k in ("val", "init", "comp", "lam"):
+    if k in ("val", "init", "comp", "lam", "xval", "xinit"):
         return [obj.value]
+    if k == "xdef":
+        return [obj.parameters["q"].default]
     if k == "base":
         return [obj.bases[0]]
     if k == "deco":
@@ -692,6 +875,255 @@ def site_expr(pkg_coll, s):
     if k == "default":
         return [obj.parameters["q"].default]
     return [obj.parameters["q"].annotation, obj.returns]
+
+
+CARRIER = {"ann": "u", "val": "v", "base": "c", "deco": "d", "default": "f", "pann": "g", "comp": "w", "lam": "w", "init": "a",
+           "xval": "x", "xdef": "h", "xinit": "b"}
+import re
+CARRIER_RE = re.compile(r"^[uvwxcdfghab]\d+$")
+
+
+# ------------------------------------------------------------------------------------------------ two abstractions of an expression
+def _fold(xs):
+    xs = [x for x in xs if x != ["c"]]
+    if not xs:
+        return ["c"]
+    out = xs[-1]
+    for x in reversed(xs[:-1]):
+        out = ["s", x, out]
+    return out
+
+
+def xlive(e, occ):
+    """Abstraction of a stored Griffe expression (live tree) into the model's expr; occ collects the ExprName objects in the
+    model's traversal order (defaults before body; element before for-clauses; targets, iterable, conditions)."""
+    import griffe
+    if isinstance(e, griffe.ExprName):
+        occ.append(e)
+        return ["n", e.name]
+    if isinstance(e, griffe.ExprAttribute):
+        return xlive(e.values[0], occ)
+    if isinstance(e, griffe.ExprLambda):
+        d = _fold([xlive(q.default, occ) for q in e.parameters if isinstance(q.default, griffe.Expr)])
+        return ["l", [q.name for q in e.parameters], d, xlive(e.body, occ)]
+    if isinstance(e, (griffe.ExprListComp, griffe.ExprSetComp, griffe.ExprGeneratorExp, griffe.ExprDictComp)):
+        if isinstance(e, griffe.ExprDictComp):
+            elt = _fold([xlive(e.key, occ), xlive(e.value, occ)])
+        else:
+            elt = xlive(e.element, occ)
+        gens = []
+        for g in e.generators:
+            tn = []
+            xlive(g.target, tn)
+            occ.extend(tn)
+            gens.append([[t.name for t in tn], xlive(g.iterable, occ), _fold([xlive(c, occ) for c in g.conditions])])
+        return ["k", elt, gens]
+    if isinstance(e, griffe.Expr):
+        kids = []
+        for f in dataclasses.fields(e):
+            if isinstance(e, griffe.ExprKeyword) and f.name == "function":
+                continue        # a back-reference to the call's function, not a child
+            kids.append(xlive(getattr(e, f.name), occ))
+        return _fold(kids)
+    if isinstance(e, (list, tuple)):
+        return _fold([xlive(x, occ) for x in e])
+    return ["c"]
+
+
+def xsrc(node, occ, ann=False):
+    """Abstraction of the source text (ast) of the same expression; occ collects the ast.Name nodes in the model's traversal order.
+    ann: the expression is an annotation of a module without the __future__ import, i.e. a whole-string annotation is parsed."""
+    if node is None:
+        return ["c"]
+    if isinstance(node, ast.Name):
+        occ.append(node)
+        return ["n", node.id]
+    if isinstance(node, ast.Attribute):
+        return xsrc(node.value, occ)
+    if isinstance(node, ast.Constant):
+        if ann and isinstance(node.value, str):
+            try:
+                inner = ast.parse(node.value, mode="eval").body
+            except SyntaxError:
+                return ["c"]
+            return ["q", xsrc(inner, occ)]
+        return ["c"]
+    if isinstance(node, ast.Lambda):
+        a = node.args
+        ps = [x.arg for x in a.posonlyargs + a.args] + ([a.vararg.arg] if a.vararg else []) + [x.arg for x in a.kwonlyargs] + ([a.kwarg.arg] if a.kwarg else [])
+        d = _fold([xsrc(x, occ) for x in list(a.defaults) + [k for k in a.kw_defaults if k is not None]])
+        return ["l", ps, d, xsrc(node.body, occ)]
+    if isinstance(node, (ast.ListComp, ast.SetComp, ast.GeneratorExp, ast.DictComp)):
+        if isinstance(node, ast.DictComp):
+            elt = _fold([xsrc(node.key, occ), xsrc(node.value, occ)])
+        else:
+            elt = xsrc(node.elt, occ)
+        gens = []
+        for g in node.generators:
+            tn = []
+            xsrc(g.target, tn)
+            occ.extend(tn)
+            gens.append([[t.id for t in tn], xsrc(g.iter, occ), _fold([xsrc(c, occ) for c in g.ifs])])
+        return ["k", elt, gens]
+    if isinstance(node, ast.IfExp):          # ExprIfExp's field order: body, test, orelse
+        return _fold([xsrc(node.body, occ), xsrc(node.test, occ), xsrc(node.orelse, occ)])
+    kids = []
+    for ch in ast.iter_child_nodes(node):
+        if isinstance(ch, ast.keyword):
+            kids.append(xsrc(ch.value, occ))
+        elif isinstance(ch, ast.expr):
+            kids.append(xsrc(ch, occ))
+    return _fold(kids)
+
+
+# ------------------------------------------------------------------------------------------------ the scopes, derived from the source text
+def src_scopes(g, files):
+    """Second abstraction of the frame chain: scope path -> {kind, name, parent, mod, stmts (binding statements in source order, as the
+    model's stmt), inst (names bound as instance attributes in __init__: members for Griffe, nothing for Python), params, carriers}."""
+    out = {}
+
+    def tnames(t):
+        if isinstance(t, ast.Name):
+            return [t.id]
+        if isinstance(t, (ast.Tuple, ast.List)):
+            return [n for e in t.elts for n in tnames(e)]
+        if isinstance(t, ast.Starred):
+            return tnames(t.value)
+        return []
+
+    def drop(path):        # a re-bound name: the scope of the earlier class / __init__ of that name is gone
+        for q in [q for q in out if q == path or q.startswith(path + ".")]:
+            del out[q]
+
+    def scope(path, kind, name, parent, m, body, params=()):
+        sc = out[path] = {"kind": kind, "name": name, "parent": parent, "mod": m, "stmts": [], "inst": set(), "params": list(params), "nodes": {}}
+
+        def visit(nodes):
+            for n in nodes:
+                if isinstance(n, (ast.Assign, ast.AnnAssign)):
+                    for t in (n.targets if isinstance(n, ast.Assign) else [n.target]):
+                        if kind == "function":
+                            if isinstance(t, ast.Attribute) and isinstance(t.value, ast.Name) and t.value.id == "self":
+                                drop(parent + "." + t.attr)
+                                out[parent]["stmts"].append(["bind", t.attr])
+                                out[parent]["inst"].add(t.attr)
+                                out[parent]["nodes"][t.attr] = n
+                        else:
+                            for nm in tnames(t):
+                                drop(path + "." + nm)
+                                sc["stmts"].append(["bind", nm])
+                                sc["nodes"][nm] = n
+                elif isinstance(n, (ast.FunctionDef, ast.AsyncFunctionDef)):
+                    drop(path + "." + n.name)
+                    sc["stmts"].append(["bind", n.name])
+                    sc["nodes"][n.name] = n
+                    if kind == "class" and n.name == "__init__":
+                        a = n.args
+                        ps = [x.arg for x in a.posonlyargs + a.args] + ([a.vararg.arg] if a.vararg else []) + [x.arg for x in a.kwonlyargs] + ([a.kwarg.arg] if a.kwarg else [])
+                        scope(path + ".__init__", "function", "__init__", path, m, n.body, ps)
+                elif isinstance(n, ast.ClassDef):
+                    drop(path + "." + n.name)
+                    sc["stmts"].append(["bind", n.name])
+                    sc["nodes"][n.name] = n
+                    scope(path + "." + n.name, "class", n.name, path, m, n.body)
+                elif isinstance(n, ast.Import):
+                    for a in n.names:
+                        sc["stmts"].append(["import", a.name.split("."), [a.asname] if a.asname else []])
+                        drop(path + "." + _binds(sc["stmts"][-1]))
+                elif isinstance(n, ast.ImportFrom):
+                    for a in n.names:
+                        sc["stmts"].append(["from", n.level, [n.module] if n.module else [], a.name, [a.asname] if a.asname else []])
+                        drop(path + "." + _binds(sc["stmts"][-1]))
+                elif isinstance(n, ast.Try):
+                    visit(n.body)
+                    for h in n.handlers:
+                        visit(h.body)
+                    visit(n.orelse)
+                    visit(n.finalbody)
+        visit(body)
+        return sc
+
+    for m in g.all_mods:
+        tree = ast.parse(files[m.relfile])
+        parent = ".".join(m.comps[:-1]) if len(m.comps) > 1 else None
+        sc = scope(m.dotted, "module", m.comps[-1], parent, m, tree.body)
+        sc["future"] = any(isinstance(n, ast.ImportFrom) and n.module == "__future__" and any(a.name == "annotations" for a in n.names) for n in tree.body)
+    for m in g.all_mods:      # the loader attaches the submodules last (shadowing a same-named member)
+        for sub in sorted(g.submodule_names(m)):
+            out[m.dotted]["stmts"].append(["bind", sub])
+    return out
+
+
+def src_chain(scopes, members, path):
+    frames = []
+    while path is not None:
+        sc = scopes[path]
+        frames.append([sc["kind"], sc["name"], members[path], sc["params"] if sc["kind"] == "function" else []])
+        path = sc["parent"]
+    return frames
+
+
+def norm_chain(chain):
+    return [[k, n, sorted(ms), ps] for k, n, ms, ps in chain]
+
+
+def site_nodes(s, scopes):
+    """The ast expression node(s) of a generated site, found through its carrier statement."""
+    k, i = s["kind"], s["id"]
+    n = scopes[s["scope"]]["nodes"].get(CARRIER[k] + str(i))
+    if n is None:
+        return []
+    if k == "ann":
+        return [n.annotation]
+    if k in ("val", "init", "comp", "lam", "xval", "xinit"):
+        return [n.value]
+    if k == "base":
+        return [n.bases[0]]
+    if k == "deco":
+        return [n.decorator_list[0]]
+    if k in ("default", "xdef"):
+        return [n.args.defaults[-1]]
+    return [n.args.args[1].annotation, n.returns]
+
+
+FAM = {"LOAD_NAME": "NAME", "LOAD_GLOBAL": "GLOBAL", "LOAD_FAST": "FAST", "LOAD_FAST_CHECK": "FAST", "LOAD_FAST_AND_CLEAR": "FAST",
+       "LOAD_DEREF": "FAST", "LOAD_CLOSURE": "FAST", "STORE_FAST": "FAST", "STORE_DEREF": "FAST",
+       "LOAD_FROM_DICT_OR_DEREF": "CLASSDEREF", "LOAD_FROM_DICT_OR_GLOBALS": "DICTGLOBALS", "LOAD_CLASSDEREF": "CLASSDEREF",
+       "STORE_NAME": "NAME", "STORE_GLOBAL": "GLOBAL"}
+
+
+def instruction_map(src, filename):
+    """(line, col, end col, identifier) -> load/store instruction families the compiler chose for that identifier."""
+    import warnings
+    out = {}
+    with warnings.catch_warnings():
+        warnings.simplefilter("ignore")
+        stack = [compile(src, filename, "exec", dont_inherit=True)]
+    while stack:
+        co = stack.pop()
+        for ins in dis.get_instructions(co):
+            if ins.opname in FAM and isinstance(ins.argval, str) and ins.positions is not None and ins.positions.lineno is not None:
+                q = ins.positions
+                out.setdefault((q.lineno, q.col_offset, q.end_col_offset, ins.argval), set()).add(FAM[ins.opname])
+        stack += [c for c in co.co_consts if hasattr(c, "co_code")]
+    return out
+
+
+def cp_binding(fam, scope_kind, name, ns_scope, ns_module):
+    """What CPython binds: (set of admissible py_where answers, description of the object) from the load instruction the compiler
+    chose and the final namespaces of the scopes (flow-insensitive reading)."""
+    local = ({"local", "param", "function"}, ["local"])
+    in_class = scope_kind == "class" and name in ns_scope
+    glob = ({"module"}, ns_module[name]) if name in ns_module else ({"unbound"}, ["unbound"])
+    if fam == "FAST":
+        return local
+    if fam in ("NAME", "DICTGLOBALS"):
+        return ({"class"}, ns_scope[name]) if in_class else glob
+    if fam == "GLOBAL":
+        return glob
+    if fam == "CLASSDEREF":
+        return ({"class"}, ns_scope[name]) if in_class else local
+    return (set(), ["unknown-instruction"])
 
 
 # ------------------------------------------------------------------------------------------------ checks
@@ -713,14 +1145,15 @@ def norm_model_path(p):
     return p
 
 
-def check_clean_packages(ctx, n, tag):
+def check_clean_packages(ctx, n, tag, rebind=False):
     """Generate n packages, run Griffe + model on all, CPython on all (one subprocess), compare."""
     import griffe
     prepared = []
     for i in range(n):
         root = f"{tag}{i}"
-        g = Gen(ctx.rng, root).build()
+        g = Gen(ctx.rng, root, rebind=rebind).build()
         files = g.files()
+        g.twin_files = g.files(twin=True)
         d = ctx.scratch / f"{tag}{i}_dir"
         for rel, text in files.items():
             f = d / root / rel
@@ -732,7 +1165,7 @@ def check_clean_packages(ctx, n, tag):
     for g, files, d in prepared:
         case = {"root": g.root, "files": files}
         try:
-            info = griffe_side(ctx, g, d)
+            info = griffe_side(ctx, g, d, files)
         except Exception as e:  # noqa: BLE001
             import traceback
             ctx.property_failure(case, {"griffe raised while loading/resolving": traceback.format_exc()[-1200:]})
@@ -740,58 +1173,108 @@ def check_clean_packages(ctx, n, tag):
         gr.append(info)
         paths = sorted(info["paths"]) if info else []
         jobs.append({"root": g.root, "dir": str(d), "modules": [m.dotted for m in g.all_mods],
-                     "inits": [[c.mod.dotted, c.qual] for m in g.all_mods for c in g.walk_classes(m.scope) if c.init is not None],
+                     "inits": [] if rebind else [[c.mod.dotted, c.qual] for m in g.all_mods for c in g.walk_classes(m.scope) if c.init is not None],
                      "paths": paths,
-                     "bindings": [[r["module_dotted"], r["qual"], r["bound"]] for r in g.imports]})
+                     "bindings": [[r["module_dotted"], r["qual"], r["bound"]] for r in g.imports],
+                     "scopes": [[sc["mod"].dotted, path[len(sc["mod"].dotted) + 1:]] for path, sc in (info["scopes"].items() if info else [])
+                                if sc["kind"] != "function"]})
     results = run_oracle(ctx, jobs)
     for (g, files, d), info, res in zip(prepared, gr, results):
-        ctx.observe("package_status", " ".join(res["status"].split(":")[:2]))
+        ctx.observe("package_status" + ("_rebind" if rebind else ""), " ".join(res["status"].split(":")[:2]))
         ctx.observe("modules_per_package", len(g.all_mods))
         if info is None:
             continue
         if res["status"] != "ok":
             ctx.count("packages_discarded_not_importable")
             continue
-        ctx.count("packages_compared")
+        ctx.count("packages_compared" + ("_rebind" if rebind else ""))
         compare_package(ctx, g, files, info, res)
 
 
-def griffe_side(ctx, g, d):
+def griffe_side(ctx, g, d, files):
     """Load the package, query Griffe and the model for every site and import; returns what is needed for the comparison."""
     import griffe
     loader, pkg = load_package(g.root, d)
     coll = loader.modules_collection
+    case = {"root": g.root, "files": files}
+    v = V()
+    # ---- phase A: the scopes from the source text; their member tables through the model's fold over the binding statements
+    scopes = src_scopes(g, files)
+    order = list(scopes)
+    souts = ctx.model([["stmts", scopes[q]["mod"].comps, scopes[q]["mod"].is_init, q, scopes[q]["stmts"]] for q in order])
+    members, pmembers = {}, {}
+    for q, (gm, pm) in zip(order, souts):
+        members[q] = gm
+        pmembers[q] = pm[0] if pm else None
+    for q in order:
+        sc = scopes[q]
+        live = coll[sc["parent"]].members["__init__"] if sc["kind"] == "function" else coll[q]
+        a, b = norm_chain(abstract_chain(live)), norm_chain(src_chain(scopes, members, q))
+        ctx.observe("scope_abstraction", "same" if a == b else "differ")
+        if a != b:
+            ctx.tie_failure("correspondence", "frame chain from the live tree vs frame chain derived from the source text (model g_members)",
+                            {"scope": q, "live": a[0], "source": b[0]} if a[0] != b[0] else {"scope": q, "live": a, "source": b}, case)
+    # ---- phase B
     queries = []
     meta = []
     paths = set()
+    twin_scopes = src_scopes(g, g.twin_files)
+    twin_targets = {m.dotted: {t.id for c2 in ast.walk(ast.parse(g.twin_files[m.relfile])) if isinstance(c2, ast.comprehension)
+                               for t in ast.walk(c2.target) if isinstance(t, ast.Name)} for m in g.all_mods}
     for s in g.sites:
         exprs = site_expr(coll, s)
-        s["g"] = []
+        s["g"], s["xs"] = [], []
+        true_scope = coll[s["scope"]]
+        true_path = s["scope"]
+        if s["kind"] in ("init", "xinit"):
+            true_scope = true_scope.members["__init__"]
+            true_path += ".__init__"
+        # whole expressions: live abstraction (positional with the ExprNames), source abstraction (positional with the twin's ast.Names)
+        nodes, tnodes = site_nodes(s, scopes), site_nodes(s, twin_scopes)
+        ann = s["kind"] in ("ann", "pann") and not scopes[s["module"]].get("future")
+        for k, expr in enumerate(exprs):
+            occ = []
+            xl = xlive(expr, occ)
+            rec = {"occ": occ, "xl": xl}
+            queries.append(["expr", v, abstract_chain(true_scope), xl])
+            meta.append(("x-live", s, rec, None))
+            if k < len(nodes) and k < len(tnodes):
+                socc, tocc = [], []
+                xs = xsrc(nodes[k], socc, ann)
+                xsrc(tnodes[k], tocc, False)
+                rec["tocc"] = tocc
+                rec["targets"] = twin_targets[s["module"]]
+                queries.append(["expr", v, src_chain(scopes, members, true_path), xs])
+                meta.append(("x-src", s, rec, None))
+            else:
+                ctx.tie_failure("harness", "site expression not found in the source text", {"site": s["id"], "kind": s["kind"]}, case)
+            s["xs"].append(rec)
+        if g.rebind:
+            continue
         for expr in exprs:
+            if s["kind"] in ("xval", "xdef", "xinit"):
+                continue
             loc = local_binders(expr)
             names, attrs = [], []
             walk_exprs(expr, names, attrs)
             if s["kind"] in ("comp", "lam"):
                 occ = [nm for nm in names if nm.name == s["root"]]
                 for nm in occ:
-                    queries.append(["resolve", abstract_chain(nm.parent), nm.name, id(nm) in loc])
+                    queries.append(["resolve2", v, abstract_chain(nm.parent), nm.name, id(nm) in loc])
                     meta.append(("site-root", s, nm, None))
                 continue
             if s["segs"]:
                 at = attrs[0]
                 rootn = at.values[0]
-                queries.append(["attr", abstract_chain(rootn.parent), rootn.name, [v.name for v in at.values[1:]]])
+                queries.append(["attr2", v, abstract_chain(rootn.parent), rootn.name, [x.name for x in at.values[1:]]])
                 meta.append(("site-attr", s, at, None))
             else:
                 rootn = names[0]
-            queries.append(["resolve", abstract_chain(rootn.parent), rootn.name, False])
+            queries.append(["resolve2", v, abstract_chain(rootn.parent), rootn.name, False])
             meta.append(("site-root", s, rootn, expr))
             # the scope the site was generated in (spec side and gap verdicts do not depend on where Griffe attached the expression)
-            true_scope = coll[s["scope"]]
-            if s["kind"] == "init":
-                true_scope = true_scope.members["__init__"]
             if rootn.parent is not true_scope:
-                queries.append(["resolve", abstract_chain(true_scope), rootn.name, False])
+                queries.append(["resolve2", v, abstract_chain(true_scope), rootn.name, False])
                 meta.append(("site-true", s, rootn, None))
                 ctx.count("sites_attached_to_another_scope")
     for r in g.imports:
@@ -805,37 +1288,66 @@ def griffe_side(ctx, g, d):
     outs = ctx.model(queries)
     if not hasattr(ctx, "_xq"):
         ctx._xq = []
-    if len(ctx._xq) < 60:
-        ctx._xq += queries[:6]
-    info = {"paths": paths, "sites": {}, "imports": []}
+    if len(ctx._xq) < 80:
+        ctx._xq += [q for q in queries if q[0] in ("expr", "resolve2", "attr2", "from")][:8] + [["stmts", scopes[q]["mod"].comps, scopes[q]["mod"].is_init, q, scopes[q]["stmts"]] for q in order[:1]]
+    info = {"paths": paths, "sites": {}, "imports": [], "scopes": scopes, "members": members, "pmembers": pmembers, "coll": coll}
     for q, (what, s, node, expr), mo in zip(queries, meta, outs):
-        if what == "site-root":
+        if what == "x-live":
+            rec = node
+            rows, wf, gap, nofun = mo
+            if wf != 1:
+                ctx.tie_failure("harness", "generated scope chain is not well-formed for the model", {"scope": s["scope"], "chain": q[2]})
+            rec["rows"], rec["gap"], rec["nofun"] = rows, gap, nofun
+            rec["res"] = [bool(impl_resolve(nm.parent, nm.name)) if not isinstance(nm.parent, (str, griffe.ExprName)) else True for nm in rec["occ"]]
+            impl = [[nm.name, nm.canonical_path] for nm in rec["occ"]]
+            if [[r[0], r[1]] for r in rows] != impl:
+                ctx.tie_failure("correspondence", "g_names(model: builders + walk) vs ExprName.canonical_path of every identifier of the stored expression",
+                                {"model": [[r[0], r[1]] for r in rows], "impl": impl, "expr": s["expr"], "scope": s["scope"], "variant": v}, case)
+                rec["c_ok"] = False
+            else:
+                rec["c_ok"] = True
+            for r in rows:
+                ctx.observe("x_tag", r[2])
+                ctx.observe("x_pyclass", r[4] + (":nested" if r[5] == "1" else ""))
+                paths.add(r[1])
+                paths.add(r[3])
+            ctx.observe("x_identifiers", min(len(rows), 12))
+        elif what == "x-src":
+            rec = node
+            rec["srows"] = mo[0]
+            a = sorted(map(tuple, rec.get("rows") or []))
+            b = sorted(map(tuple, mo[0]))
+            ctx.observe("expr_abstraction", "same" if a == b else "differ")
+            if a != b:
+                ctx.tie_failure("correspondence", "expression abstracted from the live tree vs from the source text (per identifier results of the model)",
+                                {"live": rec.get("rows"), "source": mo[0], "expr": s["expr"], "scope": s["scope"]}, case)
+        elif what == "site-root":
             scope = node.parent
             impl = impl_resolve(scope, node.name)
             canon = node.canonical_path
-            m_res, m_tag, m_py, m_wf, m_canon, m_pycanon, g1, g3 = mo
+            m_res, m_tag, m_py, m_wf, m_canon, m_pycanon, g1, g3, g1f = mo
             if m_res != impl or m_canon != canon:
                 ctx.tie_failure("correspondence", "resolve/canonical(model) vs Object.resolve/ExprName.canonical_path",
-                                {"model": [m_res, m_canon], "impl": [impl, canon], "name": node.name, "scope": scope.path}, {"root": g.root, "files": g.files()})
+                                {"model": [m_res, m_canon], "impl": [impl, canon], "name": node.name, "scope": getattr(scope, "path", None), "variant": v}, case)
             if m_wf != 1:
-                ctx.tie_failure("harness", "generated scope chain is not well-formed for the model", {"scope": scope.path, "chain": q[1]})
+                ctx.tie_failure("harness", "generated scope chain is not well-formed for the model", {"scope": getattr(scope, "path", None), "chain": q[2]})
             ctx.observe("model_tag", m_tag)
-            ctx.observe("scope_kind", scope.kind.value)
-            ctx.observe("chain_length", len(q[1]))
+            ctx.observe("scope_kind", scope.kind.value if scope is not None else "none")
+            ctx.observe("chain_length", len(q[2]))
             rec = {"name": node.name, "canon": canon, "full": expr.canonical_path if expr is not None else canon, "res": impl,
-                   "py": m_py, "pycanon": m_pycanon, "tag": m_tag, "gaps": [g1, g3], "local": bool(q[3])}
+                   "py": m_py, "pycanon": m_pycanon, "tag": m_tag, "gaps": [g1, g3], "local": bool(q[4]), "gap_fixed": g1f}
             s["g"].append(rec)
             for p in (canon, rec["full"], m_pycanon):
                 paths.add(strip_param(p))
         elif what == "site-true":
             rec = s["g"][-1]
-            rec["py"], rec["pycanon"], rec["tag"], rec["gaps"] = mo[2], mo[5], mo[1], [mo[6], mo[7]]
+            rec["py"], rec["pycanon"], rec["tag"], rec["gaps"], rec["gap_fixed"] = mo[2], mo[5], mo[1], [mo[6], mo[7]], mo[8]
             paths.add(mo[5])
         elif what == "site-attr":
             at = node
-            impl = [at.canonical_path, [v.canonical_path for v in at.values]]
+            impl = [at.canonical_path, [x.canonical_path for x in at.values]]
             if mo != impl:
-                ctx.tie_failure("correspondence", "attr_canonical(model) vs ExprAttribute.canonical_path", {"model": mo, "impl": impl}, {"root": g.root, "files": g.files()})
+                ctx.tie_failure("correspondence", "attr_canonical(model) vs ExprAttribute.canonical_path", {"model": mo, "impl": impl}, case)
             ctx.observe("chain_segments", len(at.values))
         else:
             r = s
@@ -857,33 +1369,198 @@ def griffe_side(ctx, g, d):
                 got = ["skip"]
             if got[0] != "skip" and imp != got[2]:
                 got = ["inconsistent", name, imp, got[2]]
-            if want != got:
+            # re-binding stream: one statement is compared by itself only when it is the only one binding the name in its scope
+            # (the complete member tables are compared with the model's fold over all statements in phase A)
+            last = not g.rebind or [st for st in scopes[r["scope"]]["stmts"] if _binds(st) == name] == [_stmt_of(r)]
+            if want != got and last:
                 ctx.tie_failure("correspondence", "visit_import/visit_importfrom(model) vs alias members recorded by the visitor",
-                                {"model": want, "impl": got, "stmt": r["text"], "scope": r["scope"]}, {"root": g.root, "files": g.files()})
-            ctx.observe("import_outcome", got[0])
+                                {"model": want, "impl": got, "stmt": r["text"], "scope": r["scope"]}, case)
+            ctx.observe("import_outcome", got[0] if last else "rebound-later")
             ctx.observe("import_form", r["form"] + (":level%d" % r["level"] if r["form"] == "from" else "") + (":as" if r["asname"] else ""))
             # path CPython should evaluate for the direct check: the alias target, or the member of that name when no alias was made
             gp = got[2] if got[0] in ("alias", "imports-only") else (scope.members[name].path if name in scope.members else
                                                                       (scope.module.members[name].path if name in scope.module.members else None))
-            info["imports"].append({"rec": r, "griffe_path": gp, "spec": spec})
+            info["imports"].append({"rec": r, "griffe_path": gp, "spec": spec, "last": last})
             if gp:
                 paths.add(gp)
             if spec:
                 paths.add(spec[1])
+    # the member tables: paths for the per-name comparison with CPython's final namespaces
+    for q in order:
+        sc = scopes[q]
+        if sc["kind"] == "function":
+            continue
+        live = coll[q]
+        for name, mm in (pmembers[q] or []):
+            paths.add(mm[0] if mm else q + "." + name)
+        for name, m2 in live.members.items():
+            paths.add(m2.target_path if m2.is_alias else m2.path)
     return info
+
+
+def silent_names(info, q):
+    """Names CPython binds in scope q through a from-import for which the visitor records no alias (model: p_members vs g_members)."""
+    pm, gm = info["pmembers"].get(q), info["members"].get(q)
+    if pm is None or gm is None:
+        return set()
+    return {n for n, _ in pm} - {n for n, _ in gm}
+
+
+def _binds(st):
+    if st[0] == "bind":
+        return st[1]
+    if st[0] == "import":
+        return st[2][0] if st[2] else st[1][0]
+    return st[4][0] if st[4] else st[3]
+
+
+def _stmt_of(r):
+    if r["form"] == "import":
+        return ["import", r["comps"], [r["asname"]] if r["asname"] else []]
+    return ["from", r["level"], [r["module"]] if r["module"] else [], r["name"], [r["asname"]] if r["asname"] else []]
 
 
 def strip_param(p):
     return p
 
 
+def norm_desc(d):
+    if d is None:
+        return ("none",)
+    if d[0] == "obj":
+        return ("obj", d[1])
+    if d[0] in ("unbound", "builtin", "local", "unchanged", "param"):
+        return ("none",)
+    return tuple(d)
+
+
+def griffe_desc(resolved, canon, pathdesc):
+    """What the path Griffe returned stands for, evaluated by CPython (unchanged identifier / parameter notation: no object)."""
+    if not resolved or (canon.endswith(")") and "(" in canon):
+        return ("none",)
+    d = pathdesc.get(canon)
+    return norm_desc(d if d is not None else ["dangling"])
+
+
+def classify(v, row):
+    """Which known finding explains a disagreement of one identifier (model's Griffe side vs model's Python side)."""
+    if row[6] != row[3]:
+        return "C04-F6"
+    if row[4] == "local":
+        return None if v[1] else "C04-F3"
+    if row[5] == "1":
+        return None if v[2] else "C04-F4"
+    return None if v[0] else "C04-F1"
+
+
 def compare_package(ctx, g, files, info, res):
-    rec, pathdesc = res["rec"], res["paths"]
+    rec, pathdesc, nss = res["rec"], res["paths"], res.get("namespaces", {})
     case_base = {"root": g.root, "files": files}
+    scopes = info["scopes"]
+    v = V()
+    imaps = {}
+    for m in g.all_mods:
+        try:
+            imaps[m.dotted] = instruction_map(g.twin_files[m.relfile], m.relfile)
+        except SyntaxError as e:
+            ctx.tie_failure("harness", "twin source does not compile", str(e), case_base)
+            imaps[m.dotted] = {}
+    # ---- every identifier of every stored expression: compiler + final namespaces (flow-insensitive), model, Griffe
+    for s in g.sites:
+        sk = "function" if s["kind"] in ("init", "xinit") else s["scope_kind"]
+        ns_scope = nss.get(s["module"] + ":" + s["qual"], {})
+        ns_module = nss.get(s["module"] + ":", {})
+        for xr in s.get("xs", []):
+            rows, srows, tocc = xr.get("rows"), xr.get("srows"), xr.get("tocc")
+            if rows is None or srows is None or tocc is None or len(tocc) != len(srows):
+                ctx.count("x_sites_incomplete")
+                continue
+            o_ok = True
+            cp = []
+            for node, row in zip(tocc, srows):
+                fams = imaps[s["module"]].get((node.lineno, node.col_offset, node.end_col_offset, node.id))
+                if not fams or len(fams) != 1:
+                    ctx.observe("x_instruction", "not-found" if not fams else "several")
+                    o_ok = False
+                    continue
+                fam = next(iter(fams))
+                ctx.observe("x_instruction", fam + ":" + sk)
+                where, d = cp_binding(fam, sk, node.id, ns_scope, ns_module)
+                if fam == "FAST" and row[4] not in where and node.id in xr["targets"]:
+                    # CPython 3.12.0-3.12.1 compiler defect (inlined comprehensions, PEP 709): a target of a comprehension nested in the
+                    # first iterable of another one leaks as a fast local into the enclosing code object (UnboundLocalError at run
+                    # time; 3.10, 3.11 and 3.13 compile a global load).  The authority is wrong here: the expression is not compared.
+                    ctx.observe("x_instruction", "cpython-3.12-inlining-leak")
+                    o_ok = False
+                    continue
+                cp.append((node.id, norm_desc(d)))
+                spec = griffe_desc(row[4] not in ("unbound", "local"), row[3], pathdesc)
+                if row[4] not in where and spec == norm_desc(d) and where == {"class"} and node.id in silent_names(info, s["scope"]):
+                    # `from . import a` written in a class body of an __init__ module: CPython binds A.a, the visitor records nothing
+                    # (C04_members_last_wins, the silent_last exception); the frame lacks the name, the module supplies the same path
+                    ctx.observe("x_instruction", "silent-self-import")
+                elif row[4] not in where or spec != norm_desc(d):
+                    o_ok = False
+                    ctx.tie_failure("oracle", "p_names/p_class(model) vs the load instruction CPython compiles for the identifier + final namespaces",
+                                    {"identifier": node.id, "instruction": fam, "scope_kind": sk, "model_class": row[4], "model_path": row[3],
+                                     "cpython": [sorted(where), d], "expr": s["expr"], "site": s["id"], "scope": s["scope"]}, case_base)
+            nontrivial = any(r[2] != "unresolved" for r in rows)
+            ctx.case({"root": g.root, "site": s["id"], "kind": s["kind"], "expr": s["expr"], "scope": s["scope"], "src": files_digest(files), "x": 1}, nontrivial)
+            ctx.observe("x_site_kind", s["kind"] + (":rebind" if g.rebind else ""))
+            if len(cp) != len(srows):
+                continue
+            got = [(nm.name, griffe_desc(r, nm.canonical_path, pathdesc)) for nm, r in zip(xr["occ"], xr["res"])]
+            if [a for a, _ in got] == [a for a, _ in cp]:      # both abstractions enumerate the identifiers in the same order
+                bad = [k2 for k2, (a, b) in enumerate(zip(got, cp))
+                       if a != b and not (xr["occ"][k2].canonical_path == a[0] and b[1] == ("none",))]   # the unchanged identifier is right whenever CPython has no path
+            else:
+                ctx.observe("x_order", "differs")
+                bad = [0] if sorted(got) != sorted(cp) else []
+            if not bad:
+                ctx.observe("x_mismatch", "none")
+                continue
+            # Griffe disagrees with CPython on some identifier of this expression
+            fid = None
+            if xr.get("c_ok") and o_ok:
+                ids = [classify(v, rows[k2]) if rows[k2][1] != rows[k2][3] else None for k2 in bad]
+                if ids and all(ids) and xr.get("gap") == 1:
+                    fid = sorted(ids)[0]
+            ctx.observe("x_mismatch", fid or "UNEXPLAINED")
+            ctx.property_failure({**case_base, "site": {k: w for k, w in s.items() if k not in ("g", "xs")}},
+                                 {"griffe": [[nm.name, nm.canonical_path] for nm in xr["occ"]], "griffe_as_objects": got, "cpython": sorted(cp),
+                                  "model_rows": rows}, finding=fid)
+    # ---- member tables vs CPython's final namespaces, name by name (last binding wins)
+    for q, sc in scopes.items():
+        if sc["kind"] == "function" or info["pmembers"].get(q) is None:
+            continue
+        ns = nss.get(sc["mod"].dotted + ":" + q[len(sc["mod"].dotted) + 1:], {})
+        live = info["coll"][q]
+        silent = {_binds(st) for st in sc["stmts"] if st[0] == "from"}      # self-imports are compared through the member they designate
+        for name, mm in info["pmembers"][q]:
+            if CARRIER_RE.match(name) or name in sc["inst"] or name not in ns:
+                continue
+            ctx.count("namespace_names_compared")
+            want = norm_desc(ns[name])
+            spec = norm_desc(pathdesc.get(mm[0] if mm else q + "." + name, ["dangling"]))
+            if spec != want:
+                ctx.tie_failure("oracle", "p_members(model: namespace after the binding statements) vs CPython's final namespace",
+                                {"scope": q, "name": name, "model": mm, "model_as_object": spec, "cpython": ns[name]}, case_base)
+            m2 = live.members.get(name)
+            if m2 is None:
+                if name not in silent:
+                    ctx.property_failure({**case_base, "scope": q, "name": name}, {"griffe": "no member", "cpython_bound": ns[name]})
+                continue
+            got = norm_desc(pathdesc.get(m2.target_path if m2.is_alias else m2.path, ["dangling"]))
+            if got != want:
+                ctx.property_failure({**case_base, "scope": q, "name": name},
+                                     {"griffe_member": m2.target_path if m2.is_alias else m2.path, "griffe_as_object": got, "cpython_bound": ns[name]})
+    if g.rebind:
+        return
     for s in g.sites:
         r = rec.get(str(s["id"]))
         if r is None:
-            ctx.count("sites_not_executed")
+            if s["kind"] not in ("xval", "xdef", "xinit"):
+                ctx.count("sites_not_executed")
             continue
         for gi in s["g"]:
             name = gi["name"]
@@ -896,7 +1573,7 @@ def compare_package(ctx, g, files, info, res):
             spec = expected_desc(gi["pycanon"], bool(gi["py"]) and not gi["local"], pathdesc)
             if not same_binding(spec, cp_root):
                 ctx.tie_failure("oracle", "py_lookup(model) vs CPython evaluating the name in the referencing scope",
-                                {"model_py": gi["pycanon"], "model_desc": spec, "cpython": cp_root, "site": s}, case_base)
+                                {"model_py": gi["pycanon"], "model_desc": spec, "cpython": cp_root, "site": {k: w for k, w in s.items() if k not in ("g", "xs")}}, case_base)
             # direct: Griffe vs CPython
             got = expected_desc(gi["canon"], bool(gi["res"]), pathdesc)
             ok = same_binding(got, cp_root)
@@ -908,9 +1585,9 @@ def compare_package(ctx, g, files, info, res):
                 ctx.observe("chain_outcome", "cpython:" + r["full"][0])
             if not ok:
                 g1, g3 = gi["gaps"]
-                fid = "C04-F1" if g1 else "C04-F3" if g3 else None
+                fid = ("C04-F6" if gi["gap_fixed"] else "C04-F1") if g1 else "C04-F3" if g3 else None
                 ctx.observe("mismatch", fid or "UNEXPLAINED")
-                ctx.property_failure({**case_base, "site": {k: v for k, v in s.items() if k != "g"}},
+                ctx.property_failure({**case_base, "site": {k: w for k, w in s.items() if k not in ("g", "xs")}},
                                      {"griffe": gi["canon"], "griffe_full": gi["full"], "griffe_as_object": got, "cpython": r, "model_tag": gi["tag"]}, finding=fid)
             else:
                 ctx.observe("mismatch", "none")
@@ -989,7 +1666,7 @@ def check_all_names(ctx, root, d, case):
             walk_exprs(expr, names, attrs)
             for nm in names:
                 if isinstance(nm.parent, (griffe.Module, griffe.Class, griffe.Function)):
-                    queries.append(["resolve", abstract_chain(nm.parent), nm.name, False])
+                    queries.append(["resolve2", V(), abstract_chain(nm.parent), nm.name, False])
                     meta.append(("name", nm))
                 else:
                     ctx.observe("wild_name_parent", type(nm.parent).__name__)
@@ -997,13 +1674,13 @@ def check_all_names(ctx, root, d, case):
                 first = at.values[0]
                 if isinstance(first, griffe.ExprName) and isinstance(first.parent, (griffe.Module, griffe.Class, griffe.Function)) \
                         and all(isinstance(v, griffe.ExprName) for v in at.values):
-                    queries.append(["attr", abstract_chain(first.parent), first.name, [v.name for v in at.values[1:]]])
+                    queries.append(["attr2", V(), abstract_chain(first.parent), first.name, [v.name for v in at.values[1:]]])
                     meta.append(("attr", at))
-                    queries.append(["resolve", abstract_chain(first.parent), first.name, False])
+                    queries.append(["resolve2", V(), abstract_chain(first.parent), first.name, False])
                     meta.append(("name", first))
     outs = ctx.model(queries)
     for q, (what, node), mo in zip(queries, meta, outs):
-        ctx.case({"wild": root, "name": q[2], "chain": canon_chain(q[1])}, True)
+        ctx.case({"wild": root, "name": q[3], "chain": canon_chain(q[2])}, True)
         if what == "name":
             impl = impl_resolve(node.parent, node.name)
             canon = node.canonical_path
@@ -1083,7 +1760,7 @@ def check_synthetic_trees(ctx, n):
         names = rng.sample(pool, 4) + ["zz"]
         chain = abstract_chain(inner)
         trees.append((inner, names, chain))
-        queries += [["resolve", chain, nm, False] for nm in names] + [["attr", chain, names[0], ["s", "t"]]]
+        queries += [["resolve2", V(), chain, nm, False] for nm in names] + [["attr2", V(), chain, names[0], ["s", "t"]]]
     allouts = ctx.model(queries)
     for k, (inner, names, chain) in enumerate(trees):
         outs = allouts[6 * k:6 * k + 6]
@@ -1111,6 +1788,171 @@ def check_synthetic_trees(ctx, n):
             ctx.tie_failure("correspondence", "attr_canonical(model) vs ExprAttribute.canonical_path (synthetic trees)", {"model": outs[-1], "impl": impl},
                             {"synthetic_chain": chain, "name": names[0]})
         ctx.count("synthetic_trees")
+
+
+# --- `global` / `nonlocal` declarations in the referencing scope (single modules; CPython = compiler's instruction + executed namespaces)
+class _KK:
+    def __init__(self, path):
+        self.path = path
+
+    def __call__(self, *a):
+        return a[0] if a else None
+
+
+def check_decl_sites(ctx, n):
+    import griffe
+    rng = ctx.rng
+    for k in range(n):
+        names = VALUE[:5]
+        mod_bound = rng.sample(names, rng.randint(1, 4))
+        a_bound = rng.sample(names, rng.randint(0, 3))
+        a_glob = [x for x in rng.sample(names, rng.randint(0, 2)) if x not in a_bound]
+        b_bound = rng.sample(names, rng.randint(0, 2))
+        b_glob = [x for x in rng.sample(names, rng.randint(0, 2)) if x not in b_bound]
+        params = rng.sample(names + ["p"], rng.randint(0, 2))
+        i_glob = [x for x in rng.sample(names, rng.randint(0, 2)) if x not in params]
+        l_nonlocal = [x for x in params if rng.random() < 0.5]
+        L = [f"{x} = _K('m.{x}')" for x in mod_bound]
+        sites = []
+
+        def site(ind, scope, kind, decls, nonlocals=()):
+            nm = rng.choice(names + list(decls) * 2 + list(nonlocals) * 2 + ["len", "A", "B"])
+            sid = len(sites)
+            form = "val" if kind == "function" or rng.random() < 0.5 else "ann"
+            L.append(f"{ind}try:")
+            if kind == "function":
+                L.append(f"{ind}    self.t{sid} = {nm}")
+            else:
+                L.append(f"{ind}    t{sid}: {nm} = 0" if form == "ann" else f"{ind}    t{sid} = {nm}")
+            L.append(f"{ind}except NameError: pass")
+            sites.append({"id": sid, "scope": scope, "kind": kind, "name": nm, "form": form,
+                          "decl": "global" if nm in decls else "nonlocal" if nm in nonlocals else "none"})
+        L.append("class A:")
+        for x in a_glob:
+            L.append(f"    global {x}")
+        for x in a_bound:
+            L.append(f"    {x} = _K('m.A.{x}')")
+        for _ in range(rng.randint(1, 3)):
+            site("    ", "A", "class", a_glob)
+        L.append("    class B:")
+        for x in b_glob:
+            L.append(f"        global {x}")
+        for x in b_bound:
+            L.append(f"        {x} = _K('m.A.B.{x}')")
+        for _ in range(rng.randint(1, 3)):
+            site("        ", "A.B", "class", b_glob)
+        L.append("    def __init__(" + ", ".join(["self"] + [q + "=None" for q in params]) + "):")
+        for x in i_glob:
+            L.append(f"        global {x}")
+        for _ in range(rng.randint(1, 3)):
+            site("        ", "A.__init__", "function", i_glob)
+        if rng.random() < 0.5:
+            L.append("        class L:")
+            for x in l_nonlocal:
+                L.append(f"            nonlocal {x}")
+            L.append("            pass")
+            for _ in range(rng.randint(1, 2)):
+                site("            ", "A.__init__.L", "class", [], l_nonlocal)
+        src = "\n".join(L) + "\n"
+        case = {"decl_source": src}
+        try:
+            code = compile(src, "m.py", "exec", dont_inherit=True)
+            imap = instruction_map(src, "m.py")
+            ns = {"_K": _KK, "__name__": "m"}
+            exec(code, ns)  # noqa: S102 - generated text: assignments of _K(...) objects and class statements only
+            ns["A"]()
+        except Exception as e:  # noqa: BLE001
+            ctx.tie_failure("harness", "declaration stream: generated module does not run", f"{type(e).__name__}: {e}", case)
+            continue
+        tree = ast.parse(src)
+        nodes = {}
+        for node in ast.walk(tree):
+            if isinstance(node, (ast.Assign, ast.AnnAssign)):
+                t = node.targets[0] if isinstance(node, ast.Assign) else node.target
+                nmn = t.id if isinstance(t, ast.Name) else t.attr if isinstance(t, ast.Attribute) else None
+                if nmn and nmn[0] == "t" and nmn[1:].isdigit():
+                    e = node.annotation if isinstance(node, ast.AnnAssign) else node.value
+                    nodes[int(nmn[1:])] = e
+        try:
+            mod = griffe.visit("m", filepath=None, code=src)
+        except Exception:  # noqa: BLE001
+            import traceback
+            ctx.property_failure(case, {"griffe raised": traceback.format_exc()[-800:]})
+            continue
+
+        def evalp(path):
+            parts = path.split(".")
+            if parts[0] != "m":
+                return ("none",)
+            o = None
+            cur = ns
+            for a in parts[1:]:
+                if a not in cur:
+                    return ("dangling",)
+                o = cur[a]
+                cur = vars(o) if isinstance(o, type) else {}
+            return ("obj", o.path) if isinstance(o, _KK) else ("obj", "m." + o.__qualname__) if isinstance(o, type) else ("other",)
+
+        def d_of(o):
+            return ["obj", o.path] if isinstance(o, _KK) else ["obj", "m." + o.__qualname__] if isinstance(o, type) else ["other"]
+        queries, metas = [], []
+        for st in sites:
+            if st["scope"] == "A.__init__.L" and "L" not in mod["A"].members.get("__init__", mod["A"]).members:
+                continue
+            owner = {"A": "A", "A.B": "A.B", "A.__init__": "A", "A.__init__.L": "A.__init__.L"}[st["scope"]]
+            try:
+                obj = mod[owner + ".t" + str(st["id"])]
+            except KeyError:
+                ctx.count("decl_sites_not_found")
+                continue
+            expr = obj.annotation if st["form"] == "ann" else obj.value
+            occ = []
+            xlive(expr, occ)
+            if len(occ) != 1:
+                continue
+            scope_obj = mod[st["scope"]]
+            queries.append(["occ", V(), abstract_chain(scope_obj), st["name"], False, False, st["decl"]])
+            metas.append((st, occ[0], scope_obj))
+        outs = ctx.model(queries)
+        for idx in range(len(queries)):
+            st, nm, scope_obj = metas[idx]
+            g_canon, g_tag, p_canon, p_class, wf, g_gap, gap_g, fx_canon, fx_gap = outs[idx]
+            ctx.case({"decl": src, "site": st["id"]}, g_tag != "unresolved")
+            ctx.observe("decl_kind", st["decl"] + ":" + st["kind"])
+            node = nodes.get(st["id"])
+            fams = imap.get((node.lineno, node.col_offset, node.end_col_offset, node.id)) if isinstance(node, ast.Name) else None
+            if not fams or len(fams) != 1:
+                ctx.observe("decl_instruction", "not-found")
+                continue
+            fam = next(iter(fams))
+            ctx.observe("decl_instruction", st["decl"] + ":" + fam)
+            if wf != 1:
+                ctx.tie_failure("harness", "declaration stream: chain not well-formed", {"chain": queries[idx][2]}, case)
+            if g_canon != nm.canonical_path:
+                ctx.tie_failure("correspondence", "g_canon(model) vs ExprName.canonical_path (declaration stream)",
+                                {"model": g_canon, "impl": nm.canonical_path, "name": st["name"], "scope": st["scope"]}, case)
+                continue
+            cls = ns["A"] if st["scope"] in ("A", "A.__init__") else vars(ns["A"])["B"] if st["scope"] == "A.B" else None
+            ns_scope = {k2: d_of(v2) for k2, v2 in (vars(cls).items() if cls is not None and st["kind"] == "class" else []) if not k2.startswith("__")}
+            ns_module = {k2: d_of(v2) for k2, v2 in ns.items() if not k2.startswith("__") and k2 != "_K"}
+            where, d = cp_binding(fam, st["kind"] if st["scope"] != "A.__init__.L" else "class", st["name"], ns_scope, ns_module)
+            want = norm_desc(d)
+            pm = ("none",) if (p_canon == st["name"] or p_canon.endswith(")")) else evalp(p_canon)
+            if pm != want:
+                ctx.tie_failure("oracle", "py_lookup_decl(model) vs the instruction CPython compiles + executed namespaces (declaration stream)",
+                                {"model": p_canon, "model_as_object": pm, "cpython": [fam, d], "site": st}, case)
+                continue
+            got = ("none",) if (g_canon == st["name"] or g_canon.endswith(")")) else evalp(g_canon)
+            if got != want:
+                fid = None
+                if st["decl"] == "global" and gap_g == 1 and g_canon != p_canon:
+                    fid = "C04-F5"
+                elif g_gap == 1 and g_canon != p_canon:
+                    fid = "C04-F6" if fx_gap == 1 else ("C04-F1" if not V()[0] else None)
+                ctx.observe("decl_mismatch", fid or "UNEXPLAINED")
+                ctx.property_failure({**case, "site": st}, {"griffe": g_canon, "griffe_as_object": got, "cpython": [fam, d], "model_py": p_canon}, finding=fid)
+            else:
+                ctx.observe("decl_mismatch", "none")
 
 
 # --- relative imports, exhaustive
@@ -1157,32 +1999,39 @@ def check_relative(ctx, maxdepth):
 
 
 # --- witnesses of the known findings, replayed on the implementation
+SWITCH = {"v_skip": 0, "v_locals": 1, "v_inner": 2}
+
+
 def witnesses(ctx):
+    """Replay the witness of every listed finding.  A finding that one of the three prepared repairs removes (`repaired_by`) is expected
+    to reproduce exactly while the tree under test lacks that repair; once the tree has it, the witness must give CPython's answer."""
     import griffe
     kf = json.loads((Path(__file__).resolve().parents[2] / "findings" / "C04.json").read_text())["findings"]
+    v = V()
     for f in kf:
         w = f["witness"]
+        repaired = "repaired_by" in f and v[SWITCH[f["repaired_by"]]]
         try:
-            if "source" in w:
-                mod = griffe.visit("m", filepath=None, code=w["source"])
-                get = lambda p: mod[p[2:]]
-            else:
-                d = ctx.scratch / ("witness_" + f["id"])
-                for rel, text in w["files"].items():
-                    (d / rel).parent.mkdir(parents=True, exist_ok=True)
-                    (d / rel).write_text(text)
-                loader, pkg = load_package("pkg", d)
-                get = lambda p: loader.modules_collection[p]
-            ok = True
+            mod = griffe.visit("m", filepath=None, code=w["source"])
+            got = []
             for path, attr, name in w["lookups"]:
-                expr = getattr(get(path), attr)
-                names, attrs = [], []
-                walk_exprs(expr, names, attrs)
-                got = [n.canonical_path for n in names if n.name == name]
-                ok = ok and bool(got) and all(g == w["griffe"] for g in got)
-            ctx.witness(f["id"], ok)
+                expr = getattr(mod[path[2:]], attr)
+                occ = []
+                xlive(expr, occ)
+                got += [n.canonical_path for n in occ if n.name == name]
+            if repaired:
+                ctx.case({"witness": f["id"], "repaired": True}, True)
+                if not got or any(x != w["repaired"] for x in got):
+                    ctx.property_failure({"witness": f["id"], "source": w["source"]},
+                                         {"griffe": got, "expected": w["repaired"], "what": "the tree has the repair (" + f["repaired_by"] + ") but the witness of " + f["id"] + " does not give CPython's answer"})
+            else:
+                ctx.witness(f["id"], bool(got) and all(x == w["griffe"] for x in got))
         except Exception:  # noqa: BLE001
-            ctx.witness(f["id"], False)
+            if repaired:
+                import traceback
+                ctx.property_failure({"witness": f["id"], "source": w["source"]}, {"griffe raised": traceback.format_exc()[-600:]})
+            else:
+                ctx.witness(f["id"], False)
 
 
 def replay_corpus(ctx):
@@ -1209,16 +2058,20 @@ def replay_corpus(ctx):
 
 
 def explore(ctx):
+    ctx.observe("variant", "skip=%d locals=%d inner=%d%s" % (*[int(b) for b in V()], "" if _VARIANT["read"] else " (translator failed: assumed)"))
     replay_corpus(ctx)
     witnesses(ctx)
     check_relative(ctx, ctx.budget(4, 5))
-    batches = ctx.budget(8, 80)
-    per = ctx.budget(60, 100)
+    batches = ctx.budget(5, 50)
+    per = ctx.budget(50, 100)
     for b in range(batches):
         check_clean_packages(ctx, per, f"c{b}p")
+    for b in range(ctx.budget(2, 25)):
+        check_clean_packages(ctx, per, f"r{b}p", rebind=True)
+    check_decl_sites(ctx, ctx.budget(150, 1500))
     check_wild_packages(ctx, ctx.budget(120, 800))
     check_synthetic_trees(ctx, ctx.budget(1500, 20000))
-    comp, disc = ctx.stats.get("packages_compared", 0), ctx.stats.get("packages_discarded_not_importable", 0)
+    comp, disc = ctx.stats.get("packages_compared", 0) + ctx.stats.get("packages_compared_rebind", 0), ctx.stats.get("packages_discarded_not_importable", 0)
     if comp < 0.5 * (comp + disc):
         ctx.tie_failure("harness", "generator", f"only {comp} of {comp + disc} generated packages were importable by CPython")
     if not ctx.quick:
@@ -1227,7 +2080,7 @@ def explore(ctx):
                   ["resolve", [["class", "B", [["y", []]], []], ["class", "A", [["x", []], ["B", []]], []], ["module", "m", [["x", []], ["A", []]], []]], "x", False],
                   ["resolve", [["module", "m", [["y", []]], []], ["module", "pkg", [["X", []], ["m", []]], []]], "X", False],
                   ["attr", [["module", "m", [["x", ["p.q"]]], []]], "x", ["a", "b"]]]
-        ctx.cross_check_extraction(sample + getattr(ctx, "_xq", [])[:50])
+        ctx.cross_check_extraction(sample + getattr(ctx, "_xq", [])[:70], n=80)
 
 
 def search(ctx):
@@ -1253,6 +2106,8 @@ def search(ctx):
                 paths = set()
                 for s in g.sites:
                     s["g"] = []
+                    if s["kind"] in ("xval", "xdef", "xinit"):
+                        continue
                     for expr in site_expr(coll, s):
                         names, attrs = [], []
                         walk_exprs(expr, names, attrs)
@@ -1287,23 +2142,35 @@ def search(ctx):
 
 
 def py_gap(scope, name, local):
-    """Python mirror of gap_class / gap_local (Model/C04_scope.v), used only when the model cannot be run."""
+    """Python mirror of the gap predicates (gap_class_v / g_gap of Model/C04_expr.v) for the form of the code the translator read,
+    used only when the model cannot be run."""
     import griffe
+    v = V()
+    if scope is None:
+        return False
     try:
         scope.resolve(name)
     except griffe.NameResolutionError:
         return False
     if local:
-        return True
-    o, inner = scope, True
+        return not v[1]
+    o, inner, skipping = scope, True, False
     while o is not None:
+        if skipping and o.kind.value == "class" and o.parent is not None:
+            o = o.parent
+            continue
         is_param = o.kind.value == "function" and o.parent is not None and o.name == "__init__" and name in o.parameters
         if is_param or name in o.members:
             return o.kind.value == "class" and not inner
         if o.parent is None or o.is_module:
             return False
-        if name == o.parent.name and not o.parent.is_module:
-            return o.parent.parent is None or o.parent.parent.kind.value == "class"
+        skipping = v[0] and o.kind.value == "class"
+        nxt = o.parent
+        if skipping:
+            while nxt.kind.value == "class" and nxt.parent is not None:
+                nxt = nxt.parent
+        if name == nxt.name and not nxt.is_module:
+            return nxt.parent is None or nxt.parent.kind.value == "class"
         inner = False
         o = o.parent
     return False
@@ -1313,7 +2180,20 @@ def replay(ctx, data):
     case = data.get("failing_input") or {}
     files = case.get("files")
     if not files:
-        print("replay names no input:", data.get("no_longer_checks"), case.get("rel"))
+        src = case.get("decl_source") or case.get("source")
+        if src:
+            import griffe
+            print(src)
+            print("site:", case.get("site") or case.get("witness"))
+            print("detail:", json.dumps(data.get("detail"), indent=1))
+            mod = griffe.visit("m", filepath=None, code=src)
+            for obj in all_objects(mod):
+                for expr in object_exprs(obj):
+                    occ = []
+                    xlive(expr, occ)
+                    print("griffe now:", obj.path, str(expr), [(n.name, n.canonical_path) for n in occ])
+            return 0
+        print("replay names no input:", data.get("no_longer_checks"), case.get("rel"), case)
         return 0
     root = case["root"]
     ctx.scratch.mkdir(parents=True, exist_ok=True)
